@@ -245,6 +245,7 @@ I1_CONFIG = {"max_threads", "max_history", "location", "log"}
 
 
 def I1(ctx):
+    """Reset completeness: every field of Execution is rebuilt/advanced/cleared or a listed configuration field in Execution::step; Set::clear assigns every field; lazy statics re-created."""
     prog = ctx.prog
     fk = EXEC + "::step"
     fn = need_fn(ctx, "I1", fk)
@@ -361,6 +362,7 @@ def I1(ctx):
 
 
 def I2(ctx):
+    """The scoped execution state is a thread-local touched only inside rt::scheduler; the Execution is reachable only through rt::execution."""
     prog = ctx.prog
     n = 0
     for s in call_sites(prog, {"scoped_tls::ScopedKey::<T>::with", "scoped_tls::ScopedKey::<T>::set", "scoped_tls::ScopedKey::<T>::is_set"}):
@@ -392,6 +394,7 @@ def I2(ctx):
 
 
 def I3(ctx):
+    """Execution is constructed only by new/step, from empty containers."""
     prog = ctx.prog
     n = 0
     seen = set()
